@@ -53,6 +53,8 @@ def inner_string():
 OTHER_INNERS = {
     "vec": Inner("Vec<i32>", "Vec<i32>", "other", carrier="list",
                  caps=frozenset(ALL_CAPS - {"Copy", "Display", "FromStr"})),
+    "fvec": Inner("Vec<f64>", "Vec<f64>", "other", carrier="flist",
+                  caps=frozenset(ALL_CAPS - {"Copy", "Display", "FromStr", "Eq", "Ord", "Hash"})),
     "point": Inner("nvrt::Point", "nvrt::Point", "other", carrier="point",
                    caps=frozenset(ALL_CAPS - {"IntoIterator"})),
     "cow": Inner("::std::borrow::Cow<'a, str>", "::std::borrow::Cow<'static, str>", "other", generics="<'a>", inst="<'static>",
